@@ -5,3 +5,4 @@ import Kn.Arr
 import Kn.Norm
 import Kn.Full
 import Kn.NStep
+import Kn.NLoop
